@@ -149,7 +149,11 @@ func Harness_C08_BuildersRefuse() {
 	code := uint(gen.SHA256)
 	k1, k2 := gen.NewSigner("k1"), gen.Key("k2")
 	verifrt.Reach("checked")
-	switch verifrt.Choose("case", 6) {
+	switch verifrt.Choose("case", 7) {
+	case 6: // update commitment computed with another algorithm
+		_, err := NewCreateRequest(&CreateRequestInfo{Patches: []patch.Patch{gen.KeyPatch("p")}, RecoveryCommitment: gen.Commitment(k2, code),
+			UpdateCommitment: gen.Commitment(k1.JWK, gen.SHA512), MultihashCode: code})
+		verifrt.Assert(err != nil, "create builder refuses an update commitment computed with another hash algorithm")
 	case 0: // equal commitments
 		c := gen.Commitment(k2, code)
 		_, err := NewCreateRequest(&CreateRequestInfo{Patches: []patch.Patch{gen.KeyPatch("p")}, RecoveryCommitment: c, UpdateCommitment: c, MultihashCode: code})
@@ -177,4 +181,54 @@ func Harness_C08_BuildersRefuse() {
 		_, err2 := NewUpdateRequest(&UpdateRequestInfo{DidSuffix: "s", UpdateCommitment: gen.Commitment(k2, code), UpdateKey: k1.JWK, MultihashCode: code, Signer: k1.S, RevealValue: "r"})
 		verifrt.Assert(err1 != nil && err2 != nil, "builders refuse a missing suffix or missing patches")
 	}
+}
+
+// Harness_C08_BuilderOutputAccepted: whatever a builder emits is accepted by a parser configured with the matching
+// protocol (both hash algorithms allowed, since commitments and reveal values may have been made with either): the
+// hash algorithm of the request, of every commitment and of the reveal value is chosen independently, next keys may
+// coincide - the builder either refuses or its request parses.
+func Harness_C08_BuilderOutputAccepted() {
+	codes := []uint{gen.SHA256, gen.SHA512}
+	code := codes[verifrt.Choose("request-alg", 2)]
+	recCode, updCode, revealCode := codes[verifrt.Choose("recovery-commitment-alg", 2)], codes[verifrt.Choose("update-commitment-alg", 2)], codes[verifrt.Choose("reveal-alg", 2)]
+	p := gen.Protocol("p", false)
+	p.MultihashAlgorithms = [][]uint{{gen.SHA256, gen.SHA512}, {gen.SHA512, gen.SHA256}}[verifrt.Choose("alg-order", 2)]
+	parser := operationparser.New(p)
+	ns := "did:" + verifrt.AnyAtom("method")
+	cur := gen.NewSigner("current")
+	nextRec, nextUpd := gen.Key("next-rec"), gen.Key("next-upd")
+	if verifrt.Choose("same-next-keys", 2) == 1 {
+		nextUpd = nextRec
+	}
+	var req []byte
+	var err error
+	builder := verifrt.Choose("builder", 3)
+	switch builder {
+	case 0:
+		req, err = NewCreateRequest(&CreateRequestInfo{Patches: []patch.Patch{gen.KeyPatch("p")}, RecoveryCommitment: gen.Commitment(nextRec, recCode),
+			UpdateCommitment: gen.Commitment(nextUpd, updCode), MultihashCode: code})
+	case 1:
+		req, err = NewUpdateRequest(&UpdateRequestInfo{DidSuffix: "sfx" + verifrt.AnyAtom("suffix"), Patches: []patch.Patch{gen.KeyPatch("p")},
+			UpdateCommitment: gen.Commitment(nextUpd, updCode), UpdateKey: cur.JWK, MultihashCode: code, Signer: cur.S, RevealValue: gen.Reveal(cur.JWK, revealCode)})
+	default:
+		req, err = NewRecoverRequest(&RecoverRequestInfo{DidSuffix: "sfx" + verifrt.AnyAtom("suffix"), RecoveryKey: cur.JWK, Patches: []patch.Patch{gen.KeyPatch("p")},
+			RecoveryCommitment: gen.Commitment(nextRec, recCode), UpdateCommitment: gen.Commitment(nextUpd, updCode), MultihashCode: code, Signer: cur.S,
+			RevealValue: gen.Reveal(cur.JWK, revealCode)})
+	}
+	if err != nil {
+		verifrt.Reach("refused")
+		return
+	}
+	verifrt.Reach("built")
+	if builder == 2 && gen.Commitment(nextRec, recCode) == gen.Commitment(nextUpd, updCode) {
+		// own label: the recover builder, unlike the create builder, lets equal next commitments through
+		// (known finding; the existing Sidetree client tests recover with one key for both)
+		verifrt.Fail("the recover builder refuses equal next recovery and update commitments, as the create builder and the parser do")
+		return
+	}
+	_, perr := parser.Parse(ns, req)
+	if perr != nil {
+		verifrt.Observe("parse-error", perr.Error())
+	}
+	verifrt.Assert(perr == nil, "a request a builder emits is accepted by a parser configured with the matching protocol")
 }
